@@ -1,6 +1,7 @@
 package main
 
 import (
+	"os"
 	"context"
 	"fmt"
 	"sort"
@@ -31,6 +32,9 @@ func batchPart(rep *common.Report) int {
 	var g got
 	var setupErr error
 	contracts := []transaction.Transaction{
+		// already countersigned by the receiver when proposed, listed before contracts that are not: a decoder that
+		// leaves absent fields untouched would hand the signature (or the longer data) on to the next entry
+		world.CounterSign(world.MakeTx(actA, actB.Addr, "batch contract countersigned", fillBytes(300, 9), spice.Melange{}, 7100), actB),
 		world.MakeTx(actA, actB.Addr, "batch contract 0", []byte("contract-0"), spice.Melange{}, 7101),
 		world.MakeTx(actA, actB.Addr, "batch contract 1", fillBytes(33, 7), spice.Melange{}, 7102),
 		world.MakeTx(actC, actB.Addr, "batch contract 2", fillBytes(256, 8), spice.Melange{}, 7103),
@@ -50,6 +54,14 @@ func batchPart(rep *common.Report) int {
 		vsched.Settle()
 		for _, t := range append(append([]transaction.Transaction(nil), contracts...), transfers...) {
 			pt, err := world.TrxToProto(t)
+			if err == nil {
+				// as gRPC hands it to the handler: through the wire (absent and empty byte fields both arrive as nil)
+				var raw []byte
+				if raw, err = proto.Marshal(pt); err == nil {
+					pt = &protobufcompiled.Transaction{}
+					err = proto.Unmarshal(raw, pt)
+				}
+			}
 			if err == nil {
 				_, err = f.Notary.Propose(ctx, pt)
 			}
@@ -112,6 +124,9 @@ func batchPart(rep *common.Report) int {
 			}
 			decoded = append(decoded, t)
 			byHash[t.Hash] = t
+			if os.Getenv("C19_DEBUG") != "" {
+				fmt.Fprintf(os_stderr(), "c19 batch %s[%d] %q data=%d rsig=%d\n", rpc, i, t.Subject, len(t.Data), len(t.ReceiverSignature))
+			}
 		}
 		if len(decoded) != len(want) {
 			rep.Add(common.Violation{Predicate: "C19.batch", Key: "C19.batch/" + rpc + "/count", What: fmt.Sprintf("%s answered %d transactions, %d were proposed", rpc, len(decoded), len(want)), Witness: map[string]any{"mode": "batch"}})
